@@ -65,6 +65,12 @@ struct MIDIEventHooks
 class OPNMIDIplay
 {
     friend void opn2_reset(struct OPN2_MIDIPlayer*);
+#ifdef OPNMIDI_VERIF
+    friend struct OPNMIDI_VerifAccess;
+public:
+    //! Verification hook: total count of stereo frames rendered by the chips so far
+    uint64_t m_verifFramesOut;
+#endif
 public:
     explicit OPNMIDIplay(unsigned long sampleRate = 22050);
     ~OPNMIDIplay();
